@@ -5,6 +5,7 @@ get_delivery / get_segmented / the receipt branch of `_handle_request`; the all-
 for segmented messages is covered by the correspondence + predicate and by finite tests here.
 -/
 import SmppVerif.Lemmas.Ledger
+import SmppVerif.Lemmas.RcptHistory
 
 namespace SmppVerif.Props.C02
 open SmppVerif SmppVerif.Corr SmppVerif.Lemmas.Corr SmppVerif.Lemmas.Expiry SmppVerif.Lemmas.Ledger
@@ -51,6 +52,51 @@ theorem receipt_attribution_plain (s : CState) (now at_ : Nat) (d o : Msg) (hr :
   rw [getDelivery_result, hst]
   simp only [Option.map_some]
   rw [getSegmented_none _ _ _ (getDelivery_segStore_none s now d o.seq hplain)]
+
+/-! ### history level (unsegmented messages) -/
+
+open SmppVerif.Lemmas.History SmppVerif.Lemmas.RcptHistory in
+/-- RECEIPT ATTRIBUTION over histories, unsegmented message.  Take any history from the empty state in which the
+    unsegmented submit_sm `m` (log id `L`, number `q`) is stored at `t`, then — while it is outstanding: no
+    response carrying `q`, no sweep after its time-to-live (`Calm`) — the SMSC accepts it with a submit_sm_resp
+    carrying the message id `id`, handled at `t1`; afterwards any traffic follows (requests, responses, receipts
+    for other ids, inbound messages) as long as the id is not handed out again, not named by an earlier receipt and
+    the delivery time-to-live is not exceeded (`Keeps`); the rest of the traffic never reuses `q` or `L`.
+    Then a delivery receipt naming `id` (in its text or in receipted_message_id — `rcptId` is what the parser
+    found) is handed to the hook carrying `m`'s log_id and extra_data. -/
+theorem receipt_attributed_after_any_history (L q : Nat) (m : Msg) (pm : Plain L q m) (ttlR ttlD t t1 t2 : Nat)
+    (pre mid post : List Op) (r d : Msg)
+    (hc : ∀ op ∈ pre ++ mid ++ post, Clean L q op) (hcalm : ∀ op ∈ mid, Calm q t ttlR op)
+    (hs : r.seq = q) (hk : r.kind = .submitSmResp) (h0 : r.status = 0) (hlog : r.logId ≠ L)
+    (hkeep : ∀ op ∈ post, Keeps r.msgId t1 ttlD op)
+    (hr : d.isReceipt = true) (hid : d.rcptId = r.msgId) (hne : d.rcptId.isEmpty = false) :
+    (handleDeliver (runOps L (initState ttlR ttlD) (pre ++ Op.put t m :: (mid ++ Op.resp t1 r :: post))).1 t2 d).2.2 =
+      .msg { d with logId := L, extra := m.extra } := by
+  obtain ⟨hheld, hseg⟩ := receipt_state L q m pm ttlR ttlD t t1 pre mid post r hc hcalm hs hk h0 hlog hkeep
+  have := receipt_attribution_plain _ t2 t1 d m hr hne (by rw [hid]; exact hheld) (by rw [pm.seq]; exact hseg)
+  rw [this, pm.log]
+
+open SmppVerif.Lemmas.History SmppVerif.Lemmas.RcptHistory in
+/-- UNKNOWN ID over histories: after any history in which no request was accepted under the id `id`, a receipt
+    naming `id` is handed over with empty log_id and extra_data — whatever else is outstanding, it never borrows
+    another message's identity. -/
+theorem unknown_receipt_after_any_history (ttlR ttlD t2 : Nat) (ops : List Op) (d : Msg)
+    (hn : ∀ op ∈ ops, NotAccept d.rcptId op) (hr : d.isReceipt = true) (hne : d.rcptId.isEmpty = false) :
+    (handleDeliver (runOps 0 (initState ttlR ttlD) ops).1 t2 d).2.2 = .msg { d with logId := 0, extra := 0 } :=
+  unknown_id_empty _ t2 d hr hne (run_absent 0 d.rcptId ops _ (by rfl) hn)
+
+open SmppVerif.Lemmas.History SmppVerif.Lemmas.RcptHistory in
+/-- Non-vacuity (a test): message 10 accepted under id [65] between other traffic, receipt later. -/
+example :
+    let m : Msg := { kind := .submitSm, seq := 5, logId := 10, extra := 11 }
+    let r : Msg := { kind := .submitSmResp, seq := 5, msgId := [65] }
+    let other : Msg := { kind := .submitSm, seq := 6, logId := 20 }
+    let d : Msg := { kind := .deliverSm, seq := 900, isReceipt := true, rcptId := [65], rcptErr := some 0 }
+    (handleDeliver (runOps 10 (initState 1000 100000)
+      ([Op.put 1 other] ++ Op.put 2 m :: ([Op.resp 3 { kind := .submitSmResp, seq := 6, msgId := [66] }] ++
+        Op.resp 4 r :: [Op.put 50 { kind := .enquireLink, seq := 7 }]))).1 60 d).2.2 =
+      .msg { d with logId := 10, extra := 11 } := by
+  decide +kernel
 
 /-- A receipt without id (neither in the text nor in receipted_message_id) is handed over as
     it is. -/
@@ -143,3 +189,5 @@ end SmppVerif.Props.C02
 #print axioms SmppVerif.Props.C02.segment_receipt_waits
 #print axioms SmppVerif.Props.C02.segment_receipt_final
 #print axioms SmppVerif.Props.C02.receipts_aggregate
+#print axioms SmppVerif.Props.C02.receipt_attributed_after_any_history
+#print axioms SmppVerif.Props.C02.unknown_receipt_after_any_history
